@@ -175,3 +175,141 @@ Proof. unfold valid_pt. destruct (in_span lo hi si ei v); split; congruence. Qed
 Lemma valid_pt_good lo hi si ei v :
   valid_pt lo hi si ei (Some v) = GOOD <-> in_span lo hi si ei v = true.
 Proof. unfold valid_pt. destruct (in_span lo hi si ei v); split; congruence. Qed.
+
+(* ---------------------------------------------------------------- C02 / C16 / C17 laws *)
+
+Lemma valid_pt_missing lo hi si ei x : valid_pt lo hi si ei x = MISSING <-> x = None.
+Proof.
+  unfold valid_pt. destruct x as [v|]; [|tauto]. destruct (in_span lo hi si ei v); split; congruence.
+Qed.
+
+(* a span nested inside another: every value outside the loose span is outside the strict one *)
+Lemma outside_nested lo hi lo' hi' v :
+  lo <= lo' -> hi' <= hi -> outside lo hi v = true -> outside lo' hi' v = true.
+Proof. intros H1 H2. rewrite !outside_iff. intros [H|H]; [left|right]; lra. Qed.
+
+Definition span_nested (strict loose : option (Q * Q)) : Prop :=
+  match strict, loose with
+  | _, None => True                        (* adding a suspect span, or keeping none *)
+  | None, Some _ => False
+  | Some (a', b'), Some (a, b) => a <= a' /\ b' <= b
+  end.
+
+(* C16 for gross_range_test: fail span and suspect span nested inside the old ones *)
+Lemma gross_pt_mono flo fhi s flo' fhi' s' x :
+  flo <= flo' -> fhi' <= fhi -> span_nested s' s ->
+  (sev (gross_pt flo fhi s x) <= sev (gross_pt flo' fhi' s' x))%nat /\
+  not_evaluated (gross_pt flo fhi s x) = not_evaluated (gross_pt flo' fhi' s' x).
+Proof.
+  intros H1 H2 H3. unfold gross_pt. destruct x as [v|]; [|split; reflexivity].
+  destruct (outside flo fhi v) eqn:Eo.
+  - rewrite (outside_nested flo fhi flo' fhi' v H1 H2 Eo). split; reflexivity.
+  - destruct (outside flo' fhi' v) eqn:Eo'.
+    + destruct s as [[a b]|]; [destruct (outside a b v)|]; simpl; split; try lia; reflexivity.
+    + destruct s as [[a b]|], s' as [[a' b']|]; simpl in H3; try tauto.
+      * destruct H3 as [Ha Hb]. destruct (outside a b v) eqn:E1.
+        -- rewrite (outside_nested a b a' b' v Ha Hb E1). split; reflexivity.
+        -- destruct (outside a' b' v); simpl; split; try lia; reflexivity.
+      * destruct (outside a' b' v); simpl; split; try lia; reflexivity.
+      * split; reflexivity.
+Qed.
+
+(* C16 for valid_range_test: span nested (a bound added or moved inwards, same inclusivity) *)
+Definition bound_le_lo (strict loose : option Q) : Prop :=
+  match strict, loose with _, None => True | None, Some _ => False | Some a', Some a => a <= a' end.
+Definition bound_le_hi (strict loose : option Q) : Prop :=
+  match strict, loose with _, None => True | None, Some _ => False | Some b', Some b => b' <= b end.
+
+Lemma in_span_nested lo hi lo' hi' si ei v :
+  bound_le_lo lo' lo -> bound_le_hi hi' hi ->
+  in_span lo' hi' si ei v = true -> in_span lo hi si ei v = true.
+Proof.
+  intros H1 H2. rewrite !in_span_iff. intros [A B]. split.
+  - destruct lo as [a|]; [|exact I]. destruct lo' as [a'|]; simpl in H1; [|tauto].
+    destruct si; lra.
+  - destruct hi as [b|]; [|exact I]. destruct hi' as [b'|]; simpl in H2; [|tauto].
+    destruct ei; lra.
+Qed.
+
+Lemma valid_pt_mono lo hi lo' hi' si ei x :
+  bound_le_lo lo' lo -> bound_le_hi hi' hi ->
+  (sev (valid_pt lo hi si ei x) <= sev (valid_pt lo' hi' si ei x))%nat /\
+  not_evaluated (valid_pt lo hi si ei x) = not_evaluated (valid_pt lo' hi' si ei x).
+Proof.
+  intros H1 H2. unfold valid_pt. destruct x as [v|]; [|split; reflexivity].
+  destruct (in_span lo' hi' si ei v) eqn:E.
+  - rewrite (in_span_nested lo hi lo' hi' si ei v H1 H2 E). split; reflexivity.
+  - destruct (in_span lo hi si ei v); simpl; split; try lia; reflexivity.
+Qed.
+
+(* C17: shifting data and spans together *)
+Lemma outside_shift c lo hi v : outside (lo + c) (hi + c) (v + c) = outside lo hi v.
+Proof.
+  unfold outside.
+  assert (E1 : Qltb (v + c) (lo + c) = Qltb v lo).
+  { destruct (Qltb_spec (v + c) (lo + c)), (Qltb_spec v lo); try reflexivity; exfalso; lra. }
+  assert (E2 : Qltb (hi + c) (v + c) = Qltb hi v).
+  { destruct (Qltb_spec (hi + c) (v + c)), (Qltb_spec hi v); try reflexivity; exfalso; lra. }
+  rewrite E1, E2. reflexivity.
+Qed.
+
+Definition shift_span (c : Q) (s : option (Q * Q)) : option (Q * Q) :=
+  match s with Some (a, b) => Some (a + c, b + c) | None => None end.
+
+Lemma gross_pt_joint_shift c flo fhi s x :
+  gross_pt (flo + c) (fhi + c) (shift_span c s) (option_map (fun v => v + c) x) = gross_pt flo fhi s x.
+Proof.
+  unfold gross_pt. destruct x as [v|]; simpl; [|reflexivity].
+  rewrite outside_shift. destruct (outside flo fhi v); [reflexivity|].
+  destruct s as [[a b]|]; simpl; [|reflexivity]. rewrite outside_shift. reflexivity.
+Qed.
+
+Lemma in_span_shift c lo hi si ei v :
+  in_span (option_map (fun a => a + c) lo) (option_map (fun a => a + c) hi) si ei (v + c) = in_span lo hi si ei v.
+Proof.
+  unfold in_span, below, above. f_equal.
+  - destruct lo as [a|]; simpl; [|reflexivity]. destruct si; f_equal.
+    + destruct (Qltb_spec (v + c) (a + c)), (Qltb_spec v a); try reflexivity; exfalso; lra.
+    + destruct (Qleb_spec (v + c) (a + c)), (Qleb_spec v a); try reflexivity; exfalso; lra.
+  - destruct hi as [b|]; simpl; [|reflexivity]. destruct ei; f_equal.
+    + destruct (Qltb_spec (b + c) (v + c)), (Qltb_spec b v); try reflexivity; exfalso; lra.
+    + destruct (Qleb_spec (b + c) (v + c)), (Qleb_spec b v); try reflexivity; exfalso; lra.
+Qed.
+
+Lemma valid_pt_joint_shift c lo hi si ei x :
+  valid_pt (option_map (fun a => a + c) lo) (option_map (fun a => a + c) hi) si ei (option_map (fun v => v + c) x)
+  = valid_pt lo hi si ei x.
+Proof.
+  unfold valid_pt. destruct x as [v|]; simpl; [|reflexivity]. rewrite in_span_shift. reflexivity.
+Qed.
+
+(* locality: range tests are pointwise maps — flag i depends on observation i only *)
+Lemma gross_spec_local fs ss xs ys fl fl' i :
+  length xs = length ys -> nth i xs None = nth i ys None ->
+  gross_spec fs ss xs = Flags fl -> gross_spec fs ss ys = Flags fl' ->
+  nth i fl GOOD = nth i fl' GOOD.
+Proof.
+  unfold obs in *. intros Hl Hi. unfold gross_spec. destruct fs as [|a [|b [|? ?]]]; try discriminate.
+  destruct (sort2 a b) as [flo fhi].
+  assert (G : forall f : option Q -> flag, nth i (map f xs) GOOD = nth i (map f ys) GOOD).
+  { intros f. destruct (Nat.lt_ge_cases i (length xs)) as [L|L].
+    - rewrite (nth_indep _ GOOD (f None)) by (rewrite map_length; exact L).
+      rewrite (nth_indep (map f ys) GOOD (f None)) by (rewrite map_length; lia).
+      rewrite !map_nth, Hi. reflexivity.
+    - rewrite !nth_overflow by (rewrite map_length; lia). reflexivity. }
+  destruct ss as [[|c [|d [|? ?]]]|]; try discriminate.
+  - destruct (sort2 c d) as [slo shi]. destruct (Qltb slo flo || Qltb fhi shi); [discriminate|].
+    intros E1 E2. injection E1 as <-. injection E2 as <-. apply G.
+  - intros E1 E2. injection E1 as <-. injection E2 as <-. apply G.
+Qed.
+
+Lemma valid_spec_local lo hi si ei xs ys i :
+  length xs = length ys -> nth i xs None = nth i ys None ->
+  nth i (map (valid_pt lo hi si ei) xs) GOOD = nth i (map (valid_pt lo hi si ei) ys) GOOD.
+Proof.
+  unfold obs in *. intros Hl Hi. destruct (Nat.lt_ge_cases i (length xs)) as [L|L].
+  - rewrite (nth_indep _ GOOD (valid_pt lo hi si ei None)) by (rewrite map_length; exact L).
+    rewrite (nth_indep (map _ ys) GOOD (valid_pt lo hi si ei None)) by (rewrite map_length; lia).
+    rewrite !map_nth, Hi. reflexivity.
+  - rewrite !nth_overflow by (rewrite map_length; lia). reflexivity.
+Qed.
